@@ -16,6 +16,7 @@ fn main() {
         let mut ex: Box<dyn Executor> = match stream {
             "time" => Box::new(streams::time::TimeExec),
             "wire" => Box::new(streams::wire::WireExec),
+            "inst" | "bmca" | "port" => Box::new(streams::inst::InstExec::new()),
             _ => panic!("unknown stream"),
         };
         for line in std::io::BufReader::new(file).lines() {
@@ -50,11 +51,12 @@ fn main() {
         }
     }
     let thorough = tier == "thorough";
-    let mut rng = Prng::new(seed);
+    let rng = Prng::new(seed);
     let mut out = Out::new(&dir, &stream);
     match stream.as_str() {
-        "time" => streams::time::generate(&mut out, &mut rng, thorough),
-        "wire" => streams::wire::generate(&mut out, &mut rng, thorough),
+        "time" => streams::time::generate(&mut out, &rng, thorough),
+        "wire" => streams::wire::generate(&mut out, &rng, thorough),
+        "inst" => streams::gen_inst::generate(&mut out, &rng, thorough),
         _ => panic!("unknown stream {stream}"),
     }
     out.finish();
